@@ -8,6 +8,9 @@ use serde_json::{json, Value};
 pub mod c01;
 pub mod c03;
 pub mod c04;
+pub mod c12;
+pub mod c14;
+pub mod func;
 pub mod c15;
 pub mod c16;
 pub mod c17;
